@@ -369,6 +369,8 @@ func Exec(sc *Scenario) *Run {
 	connOpts = append(connOpts, mqtt.WithCleanSession(sc.Clean))
 
 	var submMu sync.Mutex
+	var stormStop chan struct{}
+	var stormWG sync.WaitGroup
 	submit := func(idx int, st Step) *Submission {
 		sb := &Submission{Idx: idx, Step: st}
 		switch st.Op {
@@ -411,6 +413,49 @@ func Exec(sc *Scenario) *Run {
 		case "inject":
 			// wait (bounded) for an accepted connection, then push
 			tr.WaitFor(Watchdog, func() bool { return br.PushLocked(*st.In) })
+		case "release":
+			tr.Mu.Lock()
+			br.ReleaseLocked()
+			tr.Mu.Unlock()
+		case "hstorm":
+			// a goroutine keeps replacing the handler (increasing numbers) while others keep the stats
+			// lock read-held: any window in which a stale handler could be installed is widened
+			stormStop = make(chan struct{})
+			stormWG.Add(1)
+			go func(stop chan struct{}) {
+				defer stormWG.Done()
+				for k := 100; ; k++ {
+					select {
+					case <-stop:
+						return
+					default:
+					}
+					cs := tr.Call("Handle", fmt.Sprint(k))
+					cli.Handle(handler(k))
+					tr.Ret(cs, "Handle", fmt.Sprint(k), nil)
+					time.Sleep(time.Duration(20+k%7*15) * time.Microsecond)
+				}
+			}(stormStop)
+			for g := 0; g < 4; g++ {
+				stormWG.Add(1)
+				go func(stop chan struct{}) {
+					defer stormWG.Done()
+					for {
+						select {
+						case <-stop:
+							return
+						default:
+						}
+						_ = retry.Stats()
+					}
+				}(stormStop)
+			}
+		case "hstop":
+			if stormStop != nil {
+				close(stormStop)
+				stormWG.Wait()
+				stormStop = nil
+			}
 		case "garbage":
 			// the broker sends a malformed packet (protocol error seen by the client)
 			tr.Mu.Lock()
@@ -559,6 +604,11 @@ func Exec(sc *Scenario) *Run {
 		case <-time.After(Watchdog / 20):
 			tr.Note("steer point never reached")
 		}
+	}
+	if stormStop != nil {
+		close(stormStop)
+		stormWG.Wait()
+		stormStop = nil
 	}
 	// let the planned faults fire: wait until the plan is exhausted or every accepted
 	// request has been acknowledged, or (heuristic, not a verdict) nothing moved for a while
